@@ -23,6 +23,7 @@ NOT_DECIDED = [
     "whole-container round trips (Vec/BTreeMap/struct/enum through Any) — only per-step frames are proved (serializer side: sequences, tuples, single-entry maps, struct fields, newtype/tuple variants; deserializer side: sequences, map values)",
     "maps with more than one entry (std BTreeMap ordering is out of CBMC's reach); the deserializer side of maps (MapDeserializer over BTreeMap::into_iter: single-entry harnesses timed out at 300 s) — only the value half of an entry is proved",
     "JSON text parsing/printing (serde_json); Base64 decoding beyond the bound",
+    "finite float map keys in string form (\"0.1\" read as f64): std's float parser is out of CBMC's reach even for one concrete literal (300 s, no answer), so a key parser of the wrong float width is not detected; the non-finite spellings are decided",
     "enum views through Any::deserialize_enum / EnumDeserializer / VariantDeserializer (every harness, even for a bare string, timed out: CBMC unrolls the recursive drop glue of Any); enum *map keys* are decided (C13.K.key.enum)",
 ]
 
@@ -78,13 +79,15 @@ _de += [
     H("seq_deserializer_steps", "C13.K.frame.seq_deserializer", DE, ["SeqAccess<'de> for SeqDeserializer::next_element_seed", "SeqAccess<'de> for SeqDeserializer::size_hint"],
       "SeqDeserializer hands out the stored elements unchanged, in order, then None"),
     H("visit_seq_collects_in_order", "C13.K.frame.visit_seq", DE, ["Visitor<'de> for AnyVisitor::visit_seq"], "AnyVisitor::visit_seq stores the elements unchanged, in order"),
-    H("map_deserializer_value_step", "C13.K.frame.map_value", DE, ["MapAccess<'de> for MapDeserializer::next_value_seed"], "pending map value is handed to the seed unchanged and consumed"),
+    H("map_deserializer_value_step", "C13.K.frame.map_value", DE, ["MapAccess<'de> for MapDeserializer::next_value_seed"], "pending map value is handed to the seed unchanged"),
     H("key_bool_true", "C13.K.key.bool_true", DE, ["Deserializer<'de> for KeyDeserializer::macro deserialize_parse"], "map key \"true\" reads as bool true"),
     H("key_bool_false", "C13.K.key.bool_false", DE, ["Deserializer<'de> for KeyDeserializer::macro deserialize_parse"], "map key \"false\" reads as bool false"),
     H("key_native_scalars_pass_through", "C13.K.key.native", DE, ["Deserializer<'de> for KeyDeserializer::macro deserialize_parse"],
       "typed keys (i32, u64, f64) keep their value through KeyDeserializer, all values"),
     H("key_long_integer_literals", "C13.K.key.long_integer_literals", DE, ["Deserializer<'de> for KeyDeserializer::macro deserialize_parse"],
       "a 21-character decimal string key (longer than any 64-bit spelling) read as u128 is parsed and handed over", kind="bounded", bound="1 concrete literal of 21 characters", timeout=300),
+    H("key_extreme_integer_literals", "C13.K.key.extreme_integer_literals", DE, ["Deserializer<'de> for KeyDeserializer::macro deserialize_parse"],
+      "string keys at the ends of the 64-bit ranges (u64::MAX as u64, i64::MIN as i64) and a 22-character negative key as i128 are parsed with their own width's parser", kind="bounded", bound="3 concrete literals", timeout=300),
     H("key_u128_from_21_digit_strings", "C13.K.key.u128_21_digits", DE, ["Deserializer<'de> for KeyDeserializer::macro deserialize_parse"],
       "every 21-digit decimal string key read as u128 yields its numeric value", kind="bounded", bound="all 21-digit decimal strings", timeout=300),
     H("key_option_and_newtype_views", "C13.K.key.option_newtype", DE, ["Deserializer<'de> for KeyDeserializer::deserialize_option", "Deserializer<'de> for KeyDeserializer::deserialize_newtype_struct"],
@@ -144,6 +147,10 @@ KANI_UNITS = [
 ]
 
 MUTANTS = [
+    dict(name="u64_string_keys_parsed_as_i64", file=DE, **{"from": "deserialize_parse!(deserialize_u64 => visit_u64);", "to": "deserialize_parse!(deserialize_u64 => visit_i64);"},
+         expect=["C13.K.key.extreme_integer_literals"]),
+    dict(name="i128_string_keys_parsed_as_i64", file=DE, **{"from": "deserialize_parse!(deserialize_i128 => visit_i128);", "to": "deserialize_parse!(deserialize_i128 => visit_i64);"},
+         expect=["C13.K.key.extreme_integer_literals"]),
     dict(name="drop_i128_forwarding", file=DE, **{"from": "bool i8 i16 i32 i64 i128 u8 u16 u32 u64 u128 char", "to": "bool i8 i16 i32 i64 u8 u16 u32 u64 char"},
          expect=["C13.K.scalar_roundtrip.i128", "C13.K.scalar_roundtrip.u128"]),
     dict(name="visit_u32_stored_as_i32", file=DE, **{"from": "Ok(Any(Inner::U32(v)))\n    }\n\n    fn visit_u64", "to": "Ok(Any(Inner::I32(v as i32)))\n    }\n\n    fn visit_u64"},
